@@ -185,12 +185,18 @@ impl Sched {
         Self::pick_next(&mut g);
         self.cv.notify_all();
         while g.turn != Some(actor) {
-            let (ng, to) = self.cv.wait_timeout(g, Duration::from_secs(30)).unwrap();
+            let (ng, to) = self.cv.wait_timeout(g, Duration::from_secs(12)).unwrap();
             g = ng;
             if to.timed_out() && g.turn != Some(actor) {
+                // the run left the protocol the scheduler (and the spawner model) relies on: a worker
+                // the final spawn should have created never registered, or a hook was never reached.
+                // Reported as a case the model cannot follow (exit code 5), not as a harness error.
                 STUCK.store(true, Ordering::SeqCst);
-                eprintln!("HARNESS-ERROR scheduler stuck: actor {} actors={:?} expected={} registered={} turn={:?}", actor, g.actors, g.expected_workers, g.registered, g.turn);
-                std::process::exit(3);
+                let c = crate::case::CURRENT_CASE.lock().map(|g| g.clone()).unwrap_or_default();
+                println!("STUCK\t{}\tactor {} actors={:?} expected_workers={} registered={}", c, actor, g.actors, g.expected_workers, g.registered);
+                use std::io::Write;
+                std::io::stdout().flush().ok();
+                std::process::exit(5);
             }
         }
         g.turn = None;
